@@ -79,7 +79,7 @@ func init() {
 		if rng.Intn(2) == 0 {
 			s.Labels = map[string]string{}
 			for i := rng.Intn(3); i > 0; i-- {
-				s.Labels[pick(rng, []string{"team", "katib.kubeflow.org/experiment", "app", "katib.kubeflow.org/deployment"})] = pick(rng, []string{"a", "other", "x"})
+				s.Labels[pick(rng, []string{"team", "katib.kubeflow.org/experiment", "app", "katib.kubeflow.org/deployment", "sidecar.istio.io/inject", "app.kubernetes.io/name"})] = pick(rng, []string{"a", "other", "x", "true", "false"})
 			}
 			keys := []string{}
 			for kk := range s.Labels {
